@@ -992,7 +992,15 @@ def di_update(ex, s, recv, r, args, kw, node):
         if m.vt.kind == 'obj':
             raise Unsupported('update of object-valued symbolic map')
         kz = to_z3(k, m.kt)
-        m = VMap(z3.Store(m.dom, kz, True), z3.Store(m.val, kz, to_z3(ex.deref(s, v), m.vt)), m.kt, m.vt)
+        v = ex.deref(s, v)
+        if isinstance(v, VPy) and m.vt.kind in ('str', 'int', 'bool'):
+            # dynamically typed value stored where the sidecar declares a plain type: obligation (as for d[k] = v)
+            P_ = pyobj_sort()
+            rec_, acc_ = {'str': (P_.is_py_str, P_.py_s), 'int': (P_.is_py_int, P_.py_i),
+                          'bool': (P_.is_py_bool, P_.py_b)}[m.vt.kind]
+            ex.oblige(s, f'declared-type({m.vt.kind})', rec_(v.z), node)
+            v = from_z3(acc_(v.z), m.vt)
+        m = VMap(z3.Store(m.dom, kz, True), z3.Store(m.val, kz, to_z3(v, m.vt)), m.kt, m.vt)
         ex.note_mapkey(s, m, kz)
     _store_recv(ex, s, node, m)
     return [(s, VNone)]
